@@ -683,14 +683,22 @@ def corpus(batch):
     return out
 
 
-def generate(rng, tier):
+def chunks(rng, tier, size=1500):
+    """the stream, corpus first, in lists of at most `size` case lines (the thorough stream is not held in memory whole)"""
     n = 600 if tier == "quick" else 20000
-    batch = rg.Batch()
-    builders = corpus(batch)
-    while len(builders) < n:
-        builders.append(random_case(rng, batch))
-    outs = batch.run()
-    return [b.line(outs) for b in builders]
+    done = 0
+    while done < n:
+        batch = rg.Batch()
+        builders = corpus(batch) if done == 0 else []
+        while len(builders) < min(size, n - done):
+            builders.append(random_case(rng, batch))
+        outs = batch.run()
+        done += len(builders)
+        yield [b.line(outs) for b in builders]
+
+
+def generate(rng, tier):
+    return [c for ch in chunks(rng, tier) for c in ch]
 
 
 # ---------------------------------------------------------------------------------------------
@@ -743,8 +751,8 @@ def kind_of(case_line, out):
 # ---------------------------------------------------------------------------------------------
 
 def run(ctx, pid, oracle, nontrivial):
-    """-> (failures, info).  oracle(case, impl_out) -> None | (class, text), on the implementation's output only;
-    nontrivial(case, model_out) -> bool."""
+    """-> (failures, info).  oracle(case, impl_out, stats) -> None | (class, text), on the implementation's output only
+    (stats: a dict of counters the oracle may fill, shown in the evidence); nontrivial(case, model_out) -> bool."""
     info = {"stream": "resolver (network modes)", "evaluations": 0, "distinct_nontrivial": 0}
     ok, out = core.build_model_driver("resolver", ML_EXTRA)
     if not ok:
@@ -755,42 +763,48 @@ def run(ctx, pid, oracle, nontrivial):
         return [core.Failure("net-impl-build", "harness driver `resolver` failed to build against /repo: " + core.trunc(out[-1500:], 1500),
                              found_input=False)], info
     rng = random.Random(ctx["seed"] * 1000003 + sum(map(ord, pid)) * 31 + 7)
-    cases = generate(rng, ctx["tier"])
-    mouts = core.run_sharded(core.model_driver_path("resolver"), cases, ctx["run_dir"], "net-model")
-    iouts = core.run_sharded(core.impl_driver_path("resolver"), cases, ctx["run_dir"], "net-impl")
-    failures, dist, seen = [], {}, set()
-    disagreements = 0
-    exchanges = 0
-    questions = 0
-    for c, mo, io in zip(cases, mouts, iouts):
-        info["evaluations"] += 1
-        if c not in seen:
-            seen.add(c)
+    failures, dist, seen, stats = [], {}, set(), {}
+    disagreements = exchanges = questions = 0
+    modes = {}
+    sample = {}
+    for cases in chunks(rng, ctx["tier"]):
+        mouts = core.run_sharded(core.model_driver_path("resolver"), cases, ctx["run_dir"], "net-model")
+        iouts = core.run_sharded(core.impl_driver_path("resolver"), cases, ctx["run_dir"], "net-impl")
+        if not sample:
+            sample = {"case": core.trunc(cases[0], 300), "impl": core.trunc(iouts[0], 300)}
+        for c, mo, io in zip(cases, mouts, iouts):
+            info["evaluations"] += 1
+            h = hash(c)
+            if h not in seen:
+                seen.add(h)
+                try:
+                    if nontrivial(c, mo):
+                        info["distinct_nontrivial"] += 1
+                except Exception:
+                    pass
             try:
-                if nontrivial(c, mo):
-                    info["distinct_nontrivial"] += 1
+                k = kind_of(c, mo)
             except Exception:
-                pass
-        try:
-            k = kind_of(c, mo)
-        except Exception:
-            k = "unparsed"
-        dist[k] = dist.get(k, 0) + 1
-        p = rg.parse_result(io)
-        if p:
-            questions += len(p[0])
-            exchanges += sum(len(r.log) for r in p[0])
-        f = oracle(c, io)
-        if f is not None:
-            failures.append(core.Failure(f[0], f[1] + "  [replay: feed the case line to build/target/debug/impl_resolver]", c, io, mo))
-        elif mo != io:
-            disagreements += 1
-            if disagreements <= 20:
-                failures.append(core.Failure("net-correspondence",
-                                             "model and implementation disagree on a network-mode case (resolver stream); no property "
-                                             "failure found on it  [replay: feed the case line to build/model_resolver and "
-                                             "build/target/debug/impl_resolver]", c, io, mo, found_input=False))
-    info.update({"disagreements": disagreements, "distribution": dict(sorted(dist.items())), "questions": questions,
-                 "upstream_exchanges_logged": exchanges,
-                 "sample": {"case": core.trunc(cases[0], 300), "impl": core.trunc(iouts[0], 300)} if cases else {}})
+                k = "unparsed"
+            dist[k] = dist.get(k, 0) + 1
+            m = c.split(" ", 3)[2]
+            m = "forwarding" if m.startswith("f") else "recursive-" + m
+            modes[m] = modes.get(m, 0) + 1
+            p = rg.parse_result(io)
+            if p:
+                questions += len(p[0])
+                exchanges += sum(len(r.log) for r in p[0])
+            f = oracle(c, io, stats)
+            if f is not None:
+                failures.append(core.Failure(f[0], f[1] + "  [replay: feed the case line to build/target/debug/impl_resolver]", c, io, mo))
+            elif mo != io:
+                disagreements += 1
+                if disagreements <= 20:
+                    failures.append(core.Failure("net-correspondence",
+                                                 "model and implementation disagree on a network-mode case (resolver stream); no property "
+                                                 "failure found on it  [replay: feed the case line to build/model_resolver and "
+                                                 "build/target/debug/impl_resolver]", c, io, mo, found_input=False))
+    info.update({"disagreements": disagreements, "modes": dict(sorted(modes.items())), "questions": questions,
+                 "upstream_exchanges_logged": exchanges, "oracle_counters": dict(sorted(stats.items())),
+                 "distribution": dict(sorted(dist.items())), "sample": sample})
     return failures, info
